@@ -74,6 +74,26 @@ def _initializeFieldVector():
 _initializeFieldVector()
 
 
+# DynamicVector has no buffer view to fall back to: normalise negative integer indices here
+def _dynamicVectorIndex(self,index):
+    if isinstance(index, (int, np.integer)) and index < 0:
+        index += len(self)
+        if index < 0:
+            raise IndexError("DynamicVector index out of range")
+    return index
+
+def _dynamicVectorGetItem(self,index):
+    return self._getitem(_dynamicVectorIndex(self,index))
+
+def _dynamicVectorSetItem(self,index,value):
+    self._setitem(_dynamicVectorIndex(self,index),value)
+
+setattr(DynamicVector, "_getitem", DynamicVector.__getitem__)
+setattr(DynamicVector, "__getitem__", _dynamicVectorGetItem)
+setattr(DynamicVector, "_setitem", DynamicVector.__setitem__)
+setattr(DynamicVector, "__setitem__", _dynamicVectorSetItem)
+
+
 def _loadVec(includes ,typeName ,constructors=None, methods=None):
     from dune.generator.generator import SimpleGenerator
     from dune.common.hashit import hashIt
